@@ -1110,8 +1110,9 @@ func vrlRunProxy(pc vrlProxyCase) (events []vrlEv, fin map[string]any, bad []str
 		if sum.BytesDown != int64(len(dDown)) {
 			bad = append(bad, fmt.Sprintf("CountsMatch:down reported=%d delivered=%d", sum.BytesDown, len(dDown)))
 		}
-		// the covert never ends by itself and takes everything: whatever the client's Reads returned must arrive
-		if pc.End == "stall" && len(srv.received) != rUp {
+		// the covert never ends by itself and takes everything, and the down direction cannot end first (no client
+		// write fault): whatever the client's Reads returned must arrive
+		if pc.End == "stall" && pc.WriteFail == 0 && len(srv.received) != rUp {
 			bad = append(bad, fmt.Sprintf("NothingReadIsLost:up read=%d delivered=%d", rUp, len(srv.received)))
 		}
 		// the client never ends by itself and takes everything: whatever the covert sent before EOF must arrive
@@ -1183,7 +1184,7 @@ func TestVerifRelayProxy(t *testing.T) {
 	nbad := 0
 	for i, pc := range cases {
 		ev, fin, bad := vrlRunProxy(pc)
-		out.Emit(map[string]any{"a": "Run", "mode": "client", "dial": vrlDialOf(pc), "cvok": pc.End == "stall", "run": i, "client": ev, "covert": []vrlEv{}, "ret": fin["ret"], "fin": fin, "case": pc})
+		out.Emit(map[string]any{"a": "Run", "mode": "client", "dial": vrlDialOf(pc), "cvok": pc.End == "stall" && pc.WriteFail == 0, "run": i, "client": ev, "covert": []vrlEv{}, "ret": fin["ret"], "fin": fin, "case": pc})
 		for _, b := range bad {
 			nbad++
 			out.Emit(map[string]any{"kind": "final", "run": i, "mode": "proxy", "what": b, "case": pc, "client": ev})
